@@ -42,6 +42,13 @@ def run_probe(flex, probe, workdir):
             return False, "generated scanner contains %r" % probe["gen_lacks"]
         if probe.get("gen_has") and probe["gen_has"] not in gtxt:
             return False, "generated scanner lacks %r" % probe["gen_has"]
+    for fname, text in probe.get("files_lack", []):
+        try:
+            ftxt = open(os.path.join(workdir, fname), "rb").read().decode("latin1")
+        except OSError:
+            return False, "%s was not written" % fname
+        if text in ftxt:
+            return False, "%s contains %r" % (fname, text)
     if exp == "generates":
         return True, "generated"
     exe = os.path.join(workdir, "p.exe")
